@@ -298,10 +298,16 @@ def rule_pp_contract(ctx, px):
     disc_ok = False
     for st in le.node.body:
         if isinstance(st, ast.If) and st.orelse:
-            test = ast.unparse(st.test)
-            empty_test = test in (f"len({p}[0]) == 0", f"not {p}[0]", f"{p}[0] == ''", f'{p}[0] == ""')
-            inc = [s for s in st.body if isinstance(s, ast.AugAssign) and isinstance(s.op, ast.Add) and ast.unparse(s.value) == "1"]
-            zero = [s for s in st.orelse if isinstance(s, ast.Assign) and ast.unparse(s.value) == "0"]
+            tnode, body_, orelse_ = st.test, st.body, st.orelse
+            empties = (f"len({p}[0]) == 0", f"0 == len({p}[0])", f"not {p}[0]", f"{p}[0] == ''", f"'' == {p}[0]", f"not len({p}[0])")
+            if ast.unparse(tnode) not in empties and isinstance(tnode, ast.UnaryOp) and isinstance(tnode.op, ast.Not):
+                tnode, body_, orelse_ = tnode.operand, st.orelse, st.body      # `if not <empty>: zero else: count`
+            elif ast.unparse(tnode) in (f"len({p}[0]) != 0", f"len({p}[0]) > 0", f"0 != len({p}[0])", f"0 < len({p}[0])", f"{p}[0]"):
+                tnode, body_, orelse_ = ast.parse(f"len({p}[0]) == 0", mode="eval").body, st.orelse, st.body
+            test = ast.unparse(tnode)
+            empty_test = test in empties
+            inc = [s for s in body_ if isinstance(s, ast.AugAssign) and isinstance(s.op, ast.Add) and ast.unparse(s.value) == "1"]
+            zero = [s for s in orelse_ if isinstance(s, ast.Assign) and ast.unparse(s.value) == "0"]
             if empty_test and len(inc) == 1 and len(zero) == 1 and ast.unparse(inc[0].target) == ast.unparse(zero[0].targets[0]) \
                     and len(st.body) == 1 and len(st.orelse) == 1:
                 cnt = ast.unparse(inc[0].target)
